@@ -36,6 +36,7 @@ IMPORTS = ("From LE Require Import Base.Lex Store.SMap Store.PebbleIter Store.Di
            "Corr.C12 Corr.C05.")
 
 OPAQUE_PREFIXES = ("03", "06", "07", "08", "09", "33")
+DUP_KEY = "c05:dup-tx:earlier-block-tx-record-removed"
 
 
 class Interner:
@@ -150,7 +151,7 @@ def evaluate(ck, recs):
         keep = r["keep"]
         spans = []      # open applies: dict(pre, tip, ev, dfb, temps, dup, ix)
         blocks = []     # mirror of the harness' applied stack (without genesis)
-        in_domain = True
+        damaged = False   # a block that reused a stored transaction id was undone: consequences of the known finding c05:dup-tx
         if r.get("close_err"):
             fail("c05:close:%s" % r["close_err"], "DB.Close after the history reported %s" % r["close_err"], r, -1)
         had_dup = any(s.get("dup_tx") for s in r["steps"])
@@ -170,21 +171,30 @@ def evaluate(ck, recs):
             ok = st.get("err") is None and not st.get("panic")
             bump("%s:%s" % (op, "ok" if ok else (st.get("panic") and "panic:" + st["panic"]) or st.get("err")))
             if op == "delete" and spans and spans[-1]["dup"]:
-                in_domain = False     # undoing a block that reused a stored transaction: freshness hypothesis violated
+                damaged = True     # undoing a block that reused a stored transaction: freshness hypothesis violated from here on
+
+            def anomaly(key, what, observed=None):
+                # outside the freshness hypothesis every anomaly is a consequence of the known finding and reported under its key
+                if damaged:
+                    fail(DUP_KEY, "consequence of a deleted block that reused a stored transaction id: " + what, r, ix, observed=observed)
+                else:
+                    fail(key, what, r, ix, observed=observed)
+
             if st.get("panic"):
-                if in_domain:
-                    fail("c05:panic:%s:%s" % (op, st["panic"]), "%s step panicked at %s" % (op, st["panic"]), r, ix, observed=st["panic"])
-                continue
+                anomaly("c05:panic:%s:%s" % (op, st["panic"]), "%s step #%d panicked at %s" % (op, ix, st["panic"]), st["panic"])
+                bump("history abandoned after a panic")
+                break   # the shadow stacks cannot be trusted after a panic: the rest of the history is not evaluated
             tip = st.get("tip_after")
             dbt = db_tip(st["post"])
-            if in_domain and dbt is not None and (tip is None or tip["height"] != dbt[0] or tip["id"] != dbt[1]):
-                fail("c05:tip:%s" % ("cache-empty" if tip is None else "cache-differs"),
-                     "after %s step #%d the cached tip %s differs from the database tip %s" % (op, ix, json.dumps(tip), dbt), r, ix,
-                     observed=tip)
+            if dbt is not None and (tip is None or tip["height"] != dbt[0] or tip["id"] != dbt[1]):
+                anomaly("c05:tip:%s" % ("cache-empty" if tip is None else "cache-differs"),
+                        "after %s step #%d the cached tip %s differs from the database tip %s" % (op, ix, json.dumps(tip), dbt), tip)
             if not ok:
-                if st["pre"] != st["post"] and in_domain:
-                    fail("c05:%s:failed-step-changed-db:%s" % (op, st.get("err")),
-                         "%s step #%d returned %s but changed the database" % (op, ix, st.get("err")), r, ix)
+                if st["pre"] != st["post"]:
+                    anomaly("c05:%s:failed-step-changed-db:%s" % (op, st.get("err")),
+                            "%s step #%d returned %s but changed the database" % (op, ix, st.get("err")))
+                if op == "delete" and st.get("err") == "finalized" and not st.get("finalized_guard"):
+                    fail("c05:delete:refused-above-finality", "delete step #%d refused as finalized above the finalized height" % ix, r, ix)
                 continue
             if op == "apply":
                 b = st["blk"]
@@ -232,8 +242,7 @@ def evaluate(ck, recs):
                 h = st["height"]
                 if not blocks or blocks[-1]["id"] != st["id"]:
                     fail("c05:delete:unexpected-success", "delete step #%d succeeded on a block the history did not apply" % ix, r, ix)
-                    in_domain = False
-                    continue
+                    break
                 b = blocks.pop()
                 sp = spans.pop()
                 for s2 in spans + [sp]:
@@ -244,11 +253,17 @@ def evaluate(ck, recs):
                                                             cbool(st["save_temp"]), dump_term(it, st["post"])))
                 delete_ctx.append((r, ix))
                 if st.get("finalized_guard"):
-                    in_domain = False     # Executer.deleteBlock refuses this delete: outside the property from here on
-                if st["save_temp"] and st.get("temp_ok") is not True and in_domain:
-                    fail("c05:temp-block-not-retrievable", "delete step #%d with saveTemp: the removed block is not returned by "
-                         "GetTempBlocks byte-identically" % ix, r, ix, observed=st.get("temp_ids"))
-                if in_domain and not sp["dup"]:
+                    # Executer.deleteBlock refuses this delete (the harness lets a few through to observe no-diff): the block and
+                    # everything below it is finalized, so the spans open now are outside the property; spans opened by later
+                    # applies are inside again
+                    sp["taint"] = True
+                    for s2 in spans:
+                        s2["taint"] = True
+                    bump("delete below finality let through")
+                if st["save_temp"] and st.get("temp_ok") is not True:
+                    anomaly("c05:temp-block-not-retrievable", "delete step #%d with saveTemp: the removed block is not returned by "
+                            "GetTempBlocks byte-identically" % ix, st.get("temp_ids"))
+                if not damaged and not sp["dup"] and not sp.get("taint"):
                     restore_terms.append("(%s, %s, %s, %s, [%s])" % (dump_term(it, sp["pre"]), dump_term(it, st["post"]),
                                                                     optN(sp["ev"]), optN(sp["dfb"]),
                                                                     "; ".join(str(x) for x in sorted(sp["temps"]))))
@@ -258,8 +273,8 @@ def evaluate(ck, recs):
                         fail("c05:restore:db-tip", "delete step #%d: database tip %s differs from the tip before the matching apply "
                              "#%d %s" % (ix, dbt, sp["ix"], sp["tip"]), r, ix)
                     ck.nontrivial(("restore", b["id"], sp["ix"], ix))
-                elif sp["dup"]:
-                    in_domain = False     # a stored transaction was reused: the freshness hypothesis is violated from here on
+                else:
+                    bump("restore oracle skipped (%s)" % ("dup-tx" if (damaged or sp["dup"]) else "below finality"))
     ra = ck.coq_eval(IMPORTS, "apply_case", "check_apply", apply_terms, shard=40, tag="apply")
     rd = ck.coq_eval(IMPORTS, "delete_case", "check_delete", delete_terms, shard=40, tag="delete")
     rr = ck.coq_eval(IMPORTS, "restore_case", "check_restore", restore_terms, shard=40, tag="restore")
@@ -364,7 +379,8 @@ def evaluate_e(ck, recs):
                 if (st["n_events"] > 0) != (evb is not None):
                     fail("c05:executer:events-record", "apply step #%d: %d events produced but events record %s" % (
                         ix, st["n_events"], "absent" if evb is None else "present"), r, ix)
-                spans.append(dict(pre=st["pre"], ev=None, dfb=None, temps=set(), ix=ix, tip=db_tip(st["pre"]), votes=st["votes_pre"]))
+                spans.append(dict(pre=st["pre"], ev=None, dfb=None, temps=set(), ix=ix, tip=db_tip(st["pre"]), votes=st["votes_pre"],
+                                  raised=st["fh_post"] > st["fh_pre"], sibling=False))
                 m = min_event_delete(st["fh_post"], h, keep)
                 for sp in spans:
                     if m is not None:
@@ -384,6 +400,8 @@ def evaluate_e(ck, recs):
                     fail("c05:executer:delete:unexpected-success", "delete step #%d succeeded below the history" % ix, r, ix)
                     continue
                 sp = spans.pop()
+                if sp["raised"]:
+                    bump("finality-raising block deleted")
                 for s2 in spans + [sp]:
                     s2["temps"].add(h)
                 all_temps.add(h)
@@ -415,18 +433,22 @@ def evaluate_e(ck, recs):
             if any(e != "ok" for e in tw["err_a"] + tw["err_t"]):
                 fail("c05:executer:twin:step-failed", "reorg probe: a step failed: %s / %s" % (tw["err_a"], tw["err_t"]), r, -2)
             else:
-                ev, dfb, temps = all_ev, all_dfb, set(all_temps)
-                fin_a = int(dict(map(tuple, tw["a"])).get("1b", "00000000"), 16)
-                for blk, fh in ((tw["b"], tw["fh_b_post"]), (tw["b2"], fin_a)):
-                    m = min_event_delete(fh, blk["height"], keep)
-                    if m is not None:
-                        ev = max(ev or 0, m)
-                    temps.add(blk["height"])
+                # exceptions of B's own span only (computed from the recorded finalized heights, not from the dumps); what
+                # differed between the node and the twin BEFORE B (leftovers of the node's earlier history: temp records,
+                # pruned records, the marker) is excluded key by key from the observed dumps a0/t0
+                hb = tw["b"]["height"]
+                ev = min_event_delete(tw["fh_b_post"], hb, keep)
+                dfb = tw["fh_b_post"] if tw["fh_b_post"] > tw["fh_b_pre"] else None
+                temps = {hb}
+                a0 = dict(map(tuple, tw["a0"]))
+                t0 = dict(map(tuple, tw["t0"]))
+                predif = {k for k in set(a0) | set(t0) if a0.get(k) != t0.get(k)}
+                bump("twin keys differing before B: %s" % ("none" if not predif else "some"))
                 if tw["fh_b_post"] > tw["fh_b_pre"]:
-                    dfb = max(dfb or 0, tw["fh_b_post"])
-                if fin_a > tw["fh_b_pre"]:
-                    dfb = max(dfb or 0, fin_a)
-                tw_terms.append("(%s, %s, %s, %s, [%s])" % (dump_term(it, tw["t"]), dump_term(it, tw["a"]), optN(ev), optN(dfb),
+                    bump("twin with B raising finality")
+                fa = [kv for kv in tw["a"] if kv[0] not in predif]
+                ft = [kv for kv in tw["t"] if kv[0] not in predif]
+                tw_terms.append("(%s, %s, %s, %s, [%s])" % (dump_term(it, ft), dump_term(it, fa), optN(ev), optN(dfb),
                                                             "; ".join(str(x) for x in sorted(temps))))
                 tw_ctx.append(r)
                 if tw["tip_a"] != tw["tip_t"] or tw["votes_a"] != tw["votes_t"]:
